@@ -183,6 +183,8 @@ def run(ctx):
     n_mp = 12 if ctx.quick else 400
     rng = ctx.rng("c08")
     funcs = build_funcs(ctx)
+    if ctx.shard % 4 == 1:
+        numeric_and_named_calls(ctx, ctx.rng("c08:numeric"), 60 if ctx.quick else 1500)
     ctx.require("flow:strapdown_ins_propagate", "(shipped strapdown function never evaluated)")
     for site, (spec, ev) in funcs.items():
         p0, v0, q0, a, w, g, dt = gen_inputs(rng, N)
@@ -223,6 +225,93 @@ def run(ctx):
         compare(ctx, site, spec, ev, p0[idx], v0[idx], q0[idx], a[idx], w[idx], g[idx], dt[idx], ref_mp, sub="flow_mp")
         histories(ctx, site, spec, ev, rng, 30 if ctx.quick else 1500)
         ctx.sample({"function": site, "x0": np.concatenate([p0[5], v0[5], q0[5]]), "a_b": a[5], "omega_b": w[5], "g": g[5], "dt": dt[5]})
+
+
+def numeric_and_named_calls(ctx, rng, n):
+    """the same step through the two other call conventions a user has: (a) the group method called with numeric (DM)
+    arguments -- constants are folded / sparsified at construction time, which only shows on this path, in particular for
+    small increments -- incl. a run of small steps against one long step; (b) the shipped Function called by argument name."""
+    import cyecca.lie as L
+    from cyecca.models import rdd2
+    for kind in ("quat", "mrp"):
+        spec = SE23Spec(SO3S[kind])
+        so3 = spec.so3
+        site = "exp_mixed:" + spec.name
+        try:
+            G = spec.lib()
+        except Exception:
+            continue
+        p0, v0, q0, a, w, g, dt = gen_inputs(rng, n)
+        # small increments: a*dt, g*dt and dt itself range over 1e-12 .. 1
+        a = O.random_axes(rng, n) * O.loguniform(rng, 1e-6, 10, n)[:, None]
+        dt = O.loguniform(rng, 1e-7, 1.0, n)
+        g = np.where(rng.random(n) < 0.5, 9.8, O.loguniform(rng, 1e-6, 20, n))
+        p0 = p0 * 1e-3
+        v0 = v0 * 1e-3
+        R0 = O.quat_to_R(q0)
+        rot = q0 if kind == "quat" else so3.from_R(R0, rng)
+        R0 = so3.mat(rot)
+        B0 = ca.sparsify(ca.SX([[0, 1], [0, 0]]))
+        X1 = np.full((n, spec.n), np.nan)
+
+        def step(x, a_, w_, g_, dt_):
+            l = L.se23.elem(ca.DM(np.r_[0, 0, 0, a_ * dt_, w_ * dt_]))
+            r = L.se23.elem(ca.DM(np.r_[0, 0, 0, 0, 0, -g_ * dt_, 0, 0, 0]))
+            return np.array(ca.DM(G.exp_mixed(G.elem(ca.DM(x)), l, r, B0 * dt_).param).full()).ravel()
+
+        for i in range(n):
+            try:
+                X1[i] = step(np.r_[p0[i], v0[i], rot[i]], a[i], w[i], g[i], dt[i])
+            except Exception as e:
+                ctx.count("numeric_call_exception:%s:%s" % (site, type(e).__name__))
+        p1, v1, R1 = oracle_np(p0, v0, R0, a, w, g, dt)
+        fin = np.isfinite(X1).all(axis=1)
+        # absolute on purpose: position/velocity here are O(1e-3..1), an increment lost below 1e-6 must show
+        sc = np.maximum(1e-3, np.abs(p1).max(axis=1) + np.abs(v1).max(axis=1))
+        err = np.where(fin, np.maximum(np.maximum(np.abs(X1[:, :3] - p1).max(axis=1), np.abs(X1[:, 3:6] - v1).max(axis=1)) / sc,
+                                       np.abs(so3.mat(X1[:, 6:]) - R1).max(axis=(1, 2))), np.inf)
+        ctx.check_array("numeric_call_flow", site, err, 1e-9, {"x0": np.concatenate([p0, v0, rot], axis=1), "a_b": a, "omega_b": w, "g": g, "dt": dt})
+        # many small numeric steps against the oracle's single long step
+        for h in range(max(1, n // 20)):
+            m = int(rng.integers(50, 400))
+            dts = float(O.loguniform(rng, 1e-4, 3e-3, 1)[0])
+            a0 = O.random_axes(rng, 1)[0] * float(O.loguniform(rng, 1e-5, 1e-2, 1)[0])
+            w0 = O.random_axes(rng, 1)[0] * float(O.loguniform(rng, 1e-3, 1.0, 1)[0])
+            g0 = float(rng.choice([0.0, 9.8, 1e-4]))
+            x = np.r_[p0[h], v0[h], rot[h]]
+            try:
+                for _ in range(m):
+                    x = step(x, a0, w0, g0, dts)
+            except Exception as e:
+                ctx.count("numeric_call_exception:%s:%s" % (site, type(e).__name__))
+                continue
+            pe, ve, Re = oracle_np(p0[h:h + 1], v0[h:h + 1], R0[h:h + 1], a0[None], w0[None], np.array([g0]), np.array([m * dts]))
+            sc = max(1e-3, np.abs(pe).max() + np.abs(ve).max())
+            e = max(np.abs(x[:3] - pe[0]).max() / sc, np.abs(x[3:6] - ve[0]).max() / sc, np.abs(so3.mat(x[None, 6:]) - Re).max())
+            ctx.check_array("numeric_small_steps_vs_one_long_step", site, [e], 1e-9 * max(1, m / 10), {"steps": [m], "dt": [dts], "a_b": a0[None], "omega_b": w0[None], "g": [g0]})
+    # (b) by argument name
+    try:
+        f = rdd2.derive_strapdown_ins_propagation()["strapdown_ins_propagate"]
+    except Exception:
+        return
+    names = [f.name_in(i) for i in range(f.n_in())]
+    ctx.note("strapdown_argument_names", names)
+    want = ["x0", "a_b", "omega_b", "g", "dt"]
+    if sorted(names) != sorted(want):
+        ctx.skip("by_name_call:argument_names_differ")
+        return
+    p0, v0, q0, a, w, g, dt = gen_inputs(rng, n)
+    R0 = O.quat_to_R(q0)
+    X1 = np.full((n, 10), np.nan)
+    for i in range(n):
+        r = f(x0=np.r_[p0[i], v0[i], q0[i]], a_b=a[i], omega_b=w[i], g=g[i], dt=dt[i])
+        X1[i] = np.array(r[f.name_out(0)]).ravel()
+    p1, v1, R1 = oracle_np(p0, v0, R0, a, w, g, dt)
+    scale = np.maximum(1, np.maximum(np.abs(p0).max(axis=1) + np.abs(v0).max(axis=1) * dt + (np.abs(a).max(axis=1) + g) * dt * dt,
+                                     np.abs(v0).max(axis=1) + (np.abs(a).max(axis=1) + g) * dt))
+    err = np.where(np.isfinite(X1).all(axis=1), np.maximum(np.maximum(np.abs(X1[:, :3] - p1).max(axis=1), np.abs(X1[:, 3:6] - v1).max(axis=1)) / scale,
+                                                          np.abs(O.quat_to_R(X1[:, 6:]) - R1).max(axis=(1, 2))), np.inf)
+    ctx.check_array("call_by_argument_name", "strapdown_ins_propagate", err, 1e-9, {"x0": np.concatenate([p0, v0, q0], axis=1), "a_b": a, "omega_b": w, "g": g, "dt": dt})
 
 
 def histories(ctx, site, spec, ev, rng, H):
